@@ -93,8 +93,8 @@ theorem coherent_of_coherentB {l : List Entry} (h : coherentB l = true) : Cohere
 
 def lName : LSel := .scalar ⟨"name", [], []⟩
 def lAge : LSel := .scalar ⟨"age", [], []⟩
-def lPet (kids : List LSel) : LSel := .linked ⟨"pet", [⟨"name", .var "n", []⟩], []⟩ kids
-def lScore : LSel := .scalar ⟨"score", [⟨"by", .object [("a", .int 1)], [0, 0, 1, 0]⟩], []⟩
+def lPet (kids : List LSel) : LSel := .linked ⟨"pet", [⟨"name", .var "n"⟩], []⟩ kids
+def lScore : LSel := .scalar ⟨"score", [⟨"by", .object [0, 0, 1, 0] [("a", .int 1)]⟩], []⟩
 
 /-- the hypotheses are met by `{ pet(name: $n) { name, age }, score(by: {a: 1}) }` and the deep
 rearrangement `{ score(by: {a: 1}), pet(name: $n) { age, name } }` -/
@@ -197,7 +197,7 @@ theorem C15_witness_order : ¬ C15_order_statement := by
   decide
 
 /-- the key of `pet(by: {a: n})` written as argument 0 of selection number `i` of declaration 0 -/
-def petBy (n : Int) (i : Nat) : KeyK := .serverField "pet" [⟨"by", .object [("a", .int n)], [0, 0, i, 0]⟩]
+def petBy (n : Int) (i : Nat) : KeyK := .serverField "pet" [⟨"by", .object [0, 0, i, 0] [("a", .int n)]⟩]
 
 /-- "the order of two keys depends only on their (field, arguments)": with `x` written before `y` -/
 def C15_order_by_content_at (x y : Int) : Prop :=
